@@ -166,3 +166,154 @@ func GenTableHistory(r *vh.Rand, n int) []TOp {
 	}
 	return ops
 }
+
+// ---------------------------------------------------------------------------
+// online generation of a drained transit history (the downstream ids are the
+// ones the transit really allocated)
+
+// GenTransitHistory generates, online against a real transit, a protocol-conformant
+// and finally drained history: every peer numbers its streams 1,3,5,... on its own
+// connection, frames come from connected peers only and refer to live tunnels, the
+// downstream ids are the ones the transit really allocated.
+func GenTransitHistory(r *vh.Rand, n int, run *TransitRunner) (TransitScript, []AObs, []Tunnel) {
+	sc := TransitScript{Me: TransitMe, Locals: []uint64{}, Events: nil}
+	var obs []AObs
+	var live []Tunnel
+	var ended []Tunnel
+	nextUp := map[int]uint64{1: 1, 2: 1}
+	connected := map[int]bool{}
+	failing := map[int]bool{}
+	do := func(ev Event) AObs {
+		sc.Events = append(sc.Events, ev)
+		o := run.Step(ev)
+		obs = append(obs, o)
+		return o
+	}
+	for _, ev := range TransitPrologue() {
+		do(ev)
+		connected[ev.Peer] = true
+	}
+	tag := uint64(1000)
+	endPeer := func(p int) {
+		var keep []Tunnel
+		for _, t := range live {
+			if t.UpPeer == p || t.DownPeer == p {
+				t.PeerGone = true
+				ended = append(ended, t)
+			} else {
+				keep = append(keep, t)
+			}
+		}
+		live = keep
+	}
+	removeLive := func(i int) {
+		ended = append(ended, live[i])
+		live = append(live[:i], live[i+1:]...)
+	}
+	terminate := func(i int) {
+		t := live[i]
+		switch k := r.Intn(6); {
+		case k == 0:
+			do(Event{Ev: "frame", From: t.UpPeer, Frame: &Frame{Fam: t.Fam, Kind: KClose, ID: t.UpID}})
+			removeLive(i)
+		case k == 1:
+			do(Event{Ev: "frame", From: t.DownPeer, Frame: &Frame{Fam: t.Fam, Kind: KClose, ID: t.DownID}})
+			removeLive(i)
+		case k == 2 && t.Fam == TCP:
+			do(Event{Ev: "frame", From: t.UpPeer, Frame: &Frame{Fam: t.Fam, Kind: KReset, ID: t.UpID, Tag: 4}})
+			removeLive(i)
+		case k == 3:
+			do(Event{Ev: "frame", From: t.DownPeer, Frame: &Frame{Fam: t.Fam, Kind: KErr, ID: t.DownID, Tag: t.Tag}})
+			removeLive(i)
+		case k == 4:
+			p := t.UpPeer
+			do(Event{Ev: "disconnect", Peer: p})
+			connected[p] = false
+			endPeer(p)
+			nextUp[p] = 1
+		default:
+			p := t.DownPeer
+			do(Event{Ev: "disconnect", Peer: p})
+			connected[p] = false
+			endPeer(p)
+		}
+	}
+	for len(sc.Events) < n {
+		switch k := r.Intn(20); {
+		case k < 8:
+			up, down := 1+r.Intn(2), 3+r.Intn(2)
+			if !connected[up] {
+				do(Event{Ev: "connect", Peer: up, Dialer: false})
+				connected[up], failing[up] = true, false
+				break
+			}
+			if !connected[down] {
+				do(Event{Ev: "connect", Peer: down, Dialer: true})
+				connected[down], failing[down] = true, false
+				break
+			}
+			fam := []int{TCP, TCP, UDP, ICMP}[r.Intn(4)]
+			tag++
+			id := nextUp[up]
+			nextUp[up] += 2
+			o := do(Event{Ev: "frame", From: up, Frame: &Frame{Fam: fam, Kind: KOpen, ID: id, Path: []int{down}, Tag: tag}})
+			forwarded := false
+			for _, s := range o.Out {
+				if s.Frame.Kind == KOpen && s.To == down {
+					nt := Tunnel{Fam: fam, UpPeer: up, UpID: id, DownPeer: down, DownID: s.Frame.ID, Tag: tag}
+					for j := range live {
+						if live[j].Fam == fam && (live[j].UpID == nt.UpID || live[j].DownID == nt.DownID) {
+							live[j].Collided, nt.Collided = true, true
+						}
+					}
+					live = append(live, nt)
+					forwarded = true
+				}
+			}
+			if !forwarded {
+				// the OPEN was answered with an error (send failed): a transient entry
+				// existed; it collides with live tunnels of the same bare ids
+				for j := range live {
+					if live[j].Fam == fam && live[j].UpID == id {
+						live[j].Collided = true
+					}
+				}
+				// the downstream id the transit burnt is not observable; be conservative
+				for j := range live {
+					if live[j].Fam == fam && live[j].DownPeer != down {
+						live[j].Collided = true
+					}
+				}
+			}
+		case k < 12 && len(live) > 0:
+			t := live[r.Intn(len(live))]
+			tag++
+			if r.Chance(1, 2) {
+				do(Event{Ev: "frame", From: t.UpPeer, Frame: &Frame{Fam: t.Fam, Kind: KData, ID: t.UpID, Tag: tag}})
+			} else {
+				do(Event{Ev: "frame", From: t.DownPeer, Frame: &Frame{Fam: t.Fam, Kind: KData, ID: t.DownID, Tag: tag}})
+			}
+		case k < 13 && len(live) > 0:
+			t := live[r.Intn(len(live))]
+			do(Event{Ev: "frame", From: t.DownPeer, Frame: &Frame{Fam: t.Fam, Kind: KAck, ID: t.DownID, Tag: t.Tag}})
+		case k < 14:
+			p := 3 + r.Intn(2)
+			if connected[p] {
+				failing[p] = !failing[p]
+				do(Event{Ev: "setfail", Peer: p, Fail: failing[p]})
+			}
+		case len(live) > 0:
+			terminate(r.Intn(len(live)))
+		}
+	}
+	// drain: sends must work again, then every live tunnel is ended
+	for p := 3; p <= 4; p++ {
+		if connected[p] && failing[p] {
+			do(Event{Ev: "setfail", Peer: p, Fail: false})
+		}
+	}
+	for len(live) > 0 {
+		terminate(r.Intn(len(live)))
+	}
+	return sc, obs, ended
+}
